@@ -47,10 +47,11 @@ def oracle_name(prefix, fenv, key):
             encodes=["cincoconfig.core.Field.__setkey__", "cincoconfig.core.Schema.__setkey__"],
             what="resolved variable name of a field at depth 1..3 for every combination of root-schema env "
                  "(absent/automatic/named/disabled), nested-schema env (absent/named/disabled) and field env "
-                 "(absent/automatic/named/disabled), schemas built top-down == the documented naming rule")
-def env_naming(re_i: int, s1_i: int, s2_i: int, fe_i: int, depth: int) -> bool:
+                 "(absent/automatic/named/disabled), schemas built top-down (explicit nested schemas, implicit ones via attribute access, implicit ones via a dotted item path) == the documented naming rule")
+def env_naming(re_i: int, s1_i: int, s2_i: int, fe_i: int, depth: int, route: int) -> bool:
     """
     pre: 0 <= re_i <= 3 and 0 <= s1_i <= 3 and 0 <= s2_i <= 3 and 0 <= fe_i <= 3 and 1 <= depth <= 3
+    pre: 0 <= route <= 2
     post: _
     """
     renv, s1, s2, fenv = _sel(ENVS, re_i), _sel(ENVS, s1_i), _sel(ENVS, s2_i), _sel(FENVS, fe_i)
@@ -67,15 +68,33 @@ def env_naming(re_i: int, s1_i: int, s2_i: int, fe_i: int, depth: int) -> bool:
     root = Schema(env=renv)
     prefix = oracle_prefix(None, renv, "")
     owner = root
-    if depth >= 2:
-        owner.db = Schema(env=s1)
-        owner = owner.db
-        prefix = oracle_prefix(prefix, s1, "db")
-    if depth >= 3:
-        owner.pool_x = Schema(env=s2)
-        owner = owner.pool_x
-        prefix = oracle_prefix(prefix, s2, "pool_x")
-    owner.max_size = IntField(env=fenv, default=1)
+    if route == 0:
+        # explicit nested schemas, attribute route
+        if depth >= 2:
+            owner.db = Schema(env=s1)
+            owner = owner.db
+            prefix = oracle_prefix(prefix, s1, "db")
+        if depth >= 3:
+            owner.pool_x = Schema(env=s2)
+            owner = owner.pool_x
+            prefix = oracle_prefix(prefix, s2, "pool_x")
+        owner.max_size = IntField(env=fenv, default=1)
+    else:
+        # intermediate schemas created implicitly (no env setting of their own): by attribute access (1) or by a
+        # dotted path through item assignment (2)
+        if s1 is not None or s2 is not None:
+            skip("implicit intermediate schemas have no setting of their own")
+        keys = ["db", "pool_x"][: depth - 1]
+        for k in keys:
+            prefix = oracle_prefix(prefix, None, k)
+        if route == 1:
+            for k in keys:
+                owner = getattr(owner, k)
+            owner.max_size = IntField(env=fenv, default=1)
+        else:
+            root[".".join(keys + ["max_size"])] = IntField(env=fenv, default=1)
+            for k in keys:
+                owner = owner[k]
     want = oracle_name(prefix, fenv, "max_size")
     got = owner.max_size.env
     hold("name", got == want and type(got) is type(want),
@@ -147,14 +166,14 @@ def env_precedence_string(nested: bool, fe_i: int, is_set: bool, val: str, doc: 
 
 
 KINDS = ("int", "bool", "list", "dict", "challenge", "challenge_default", "secure", "list_nodefault")
-VALUES = ("5", "x", "yes", "1,2", "")
+VALUES = ("5", "x", "yes", "1,2", "0", "false", "0.0", "")
 
 
 def _kind_field(kind: str):
     if kind == "int":
         return IntField(min=0, default=1)
     if kind == "bool":
-        return BoolField(default=False)
+        return BoolField(default=True)
     if kind == "list":
         return ListField(IntField(), default=[9])
     if kind == "list_nodefault":
@@ -173,9 +192,13 @@ def _kind_field(kind: str):
 def _validated(kind: str, text: str):
     """oracle: ('ok', value) or ('invalid',) for the variable's text under the field's documented validation"""
     if kind == "int":
-        return ("ok", 5) if text == "5" else ("invalid",)
+        return ("ok", 5) if text == "5" else (("ok", 0) if text == "0" else ("invalid",))
     if kind == "bool":
-        return ("ok", True) if text == "yes" else (("ok", True) if text == "1" else ("invalid",)) if text != "5" else ("invalid",)
+        if text in ("yes",):
+            return ("ok", True)
+        if text in ("0", "false"):
+            return ("ok", False)
+        return ("invalid",)
     if kind in ("list", "list_nodefault", "dict"):
         return ("invalid",)  # a string is neither a list nor a dict
     if kind in ("challenge", "challenge_default"):
@@ -198,7 +221,7 @@ DOCS = {"int": 7, "bool": True, "list": [3], "list_nodefault": [3], "dict": {"d"
                  "override it, or construction fails with ValidationError naming the field")
 def env_precedence_kinds(kind_i: int, val_i: int) -> bool:
     """
-    pre: 0 <= kind_i < 8 and 0 <= val_i < 4
+    pre: 0 <= kind_i < 8 and 0 <= val_i < 7
     post: _
     """
     kind, text = _sel(KINDS, kind_i), _sel(VALUES, val_i)
